@@ -1,8 +1,8 @@
 package gosym
 
 import (
-	"math/big"
 	"fmt"
+	"math/big"
 	"strconv"
 )
 
